@@ -135,3 +135,50 @@ def nest_after_early_exit(source: str) -> str:
             return node
     tree = ast.fix_missing_locations(T().visit(tree))
     return ast.unparse(tree) + "\n"
+
+
+def split_conjunctions(source: str) -> str:
+    """`if a and b: X` (no else) becomes `if a: if b: X`.  Same behaviour; conjunctive guards become nested guards."""
+    tree = ast.parse(source)
+
+    class T(ast.NodeTransformer):
+        def visit_If(self, node: ast.If):
+            self.generic_visit(node)
+            if not node.orelse and isinstance(node.test, ast.BoolOp) and isinstance(node.test.op, ast.And) \
+                    and not any(isinstance(x, ast.NamedExpr) for x in ast.walk(node.test)):
+                inner = node.body
+                for part in reversed(node.test.values[1:]):
+                    inner = [ast.If(test=part, body=inner, orelse=[])]
+                node.test = node.test.values[0]
+                node.body = inner
+            return node
+    tree = ast.fix_missing_locations(T().visit(tree))
+    return ast.unparse(tree) + "\n"
+
+
+def mirror_comparisons(source: str) -> str:
+    """Single comparisons between side-effect free operands (names, attributes, constants, subscripts of those) are
+    written the other way round: a < b -> b > a, a == b -> b == a, a != b -> b != a.  Same behaviour."""
+    tree = ast.parse(source)
+    flip = {ast.Lt: ast.Gt, ast.Gt: ast.Lt, ast.LtE: ast.GtE, ast.GtE: ast.LtE, ast.Eq: ast.Eq, ast.NotEq: ast.NotEq}
+
+    def simple(e) -> bool:
+        if isinstance(e, (ast.Name, ast.Constant)):
+            return True
+        if isinstance(e, ast.Attribute):
+            return simple(e.value)
+        if isinstance(e, ast.Subscript):
+            return simple(e.value) and simple(e.slice)
+        if isinstance(e, ast.UnaryOp):
+            return simple(e.operand)
+        return False
+
+    class T(ast.NodeTransformer):
+        def visit_Compare(self, node: ast.Compare):
+            self.generic_visit(node)
+            if len(node.ops) == 1 and type(node.ops[0]) in flip and simple(node.left) and simple(node.comparators[0]):
+                node.left, node.comparators = node.comparators[0], [node.left]
+                node.ops = [flip[type(node.ops[0])]()]
+            return node
+    tree = ast.fix_missing_locations(T().visit(tree))
+    return ast.unparse(tree) + "\n"
